@@ -223,6 +223,15 @@ func (vlog *valueLog) removeValueLogFile(bucket uint32, fid uint32) error {
 	if err != nil {
 		return err
 	}
+	// The decision that nothing live is left in this file was taken against the in-memory
+	// LSM. The WAL records it rests on may still sit in the WAL's user-space buffer
+	// (SyncWrites off): make them durable before the file disappears, otherwise a crash
+	// leaves older LSM entries pointing into a file that no longer exists.
+	if vlog.db.wal != nil {
+		if err := vlog.db.wal.Sync(); err != nil {
+			return errors.Wrapf(err, "sync wal before removing value log fid %d (bucket %d)", fid, bucket)
+		}
+	}
 	status := vlog.db.lsm.ValueLogStatus()
 	var (
 		meta    manifest.ValueLogMeta
